@@ -238,6 +238,11 @@ def c01_families(rng, tier):
             "straights, straight flushes, wheels and repeated-rank hands spanning five ranks, shuffled slots", pinned=True),
         fam("fives_shuffled", sh, "seeded random five distinct cards in random slot order; non-trivial = distinct line",
             categories=cats, pinned=True),
+        fam("perm5_projection", [line("perm5", rand_hand(rng, 5)) for _ in range(300)] + structured_fives(rng, "perm5"),
+            "the projection the slot-order sweep uses, on model and implementation", pinned=True),
+        fam_sweep("perm5_all_orders", "perm5", 5, 0, "1 1", "C01_value (the ordinal depends only on the ranks and the flush bit)",
+                  "ALL 2,598,960 five-card hands x ALL 120 slot orders x the six entry points: one in-range value per hand "
+                  "(implementation-only: the model's line is constant by the theorem)", profiles=["release"] if tier == "quick" else ["release", "chk"]),
     ]
 
 
@@ -425,7 +430,7 @@ def sweeps(rng, tier, op_of, expect, theorem, what, sizes=(6, 7), quick_strides=
     seed = rng.below(1 << 30) + 1
     out = []
     for k in sizes:
-        qs = (quick_strides or {}).get(k, {5: (1, 2, 2), 6: (1, 4, 4), 7: (8, 32, 32)}[k])
+        qs = (quick_strides or {}).get(k) or {5: (1, 2, 2), 6: (1, 4, 4), 7: (8, 32, 32)}.get(k, (1, 1, 1))
         ts = (thorough_stride or {}).get(k, 1)
         plan = [(2, qs[0], ["release"]), (3, qs[1], ["release"]), (0, qs[2], ["release"])] if tier == "quick" else \
                [(2, ts, ["release", "chk"]), (3, ts, ["release"]), (0, ts, ["release"]), (1, 2 * ts, ["release"]), (4, 2 * ts, ["release"])]
@@ -565,6 +570,19 @@ def c04_families(rng, tier):
     fams.append(fam("validator_parts", parts, "is_valid / is_corrupt / are_unique / contain_blank separately on slot substitutions (beyond "
                     "the property, which only fixes what is reported valid: ties the model's helper predicates; words equal to the "
                     "0xFFFFFFFF sentinel of Six/Seven are left out)", profiles=["release"], beyond=True))
+    for k in (5, 6, 7):
+        tail = " 1" if k == 5 else ""
+        fams += sweeps(rng, tier, lambda k_: "vrank %d" % k_, "1 0 1 1" + tail, "C04_is_valid + C04_validated + C04_zero_iff",
+                       "distinct real cards: reported valid, validated value non-zero, carried by hand_rank_validated, equal to the unvalidated value",
+                       sizes=(k,), name="vrank_valid", quick_strides={5: (1, 4, 4), 6: (4, 16, 16), 7: (16, 64, 64)})
+        fams += sweeps(rng, tier, lambda k_: "vrank %d" % k_, "0 1 1" + tail, "C04_is_valid + C04_zero_iff",
+                       "a blank or a repeated card among the slots: reported not valid, validated value 0",
+                       sizes=(k,), name="vrank_invalid", alphabet="deckblank_invalid", thorough_stride={7: 8},
+                       quick_strides={5: (1, 4, 4), 6: (4, 16, 16), 7: (32, 128, 128)})
+    for k in (2, 3, 4):
+        fams += sweeps(rng, tier, lambda k_: "isvalid %d" % k_, "0", "C04_is_valid", "a blank or a repeated card among the slots: not valid",
+                       sizes=(k,), name="isvalid_invalid", alphabet="deckblank_invalid")
+        fams += sweeps(rng, tier, lambda k_: "isvalid %d" % k_, "1", "C04_is_valid", "distinct real cards: valid", sizes=(k,), name="isvalid_valid")
     ws, wc = words_family(rng, 2000 if tier == "quick" else 200000)
     fams.append(fam("filter", ["filter %d" % w for w in ws], "the per-slot recogniser on cards, near-miss words and seeded u32 (its complete "
                     "2^32 graph is regenerated into Gen/Scan.v on every run)", categories=wc, pinned=True))
@@ -587,7 +605,11 @@ def c06_families(rng, tier):
         fam("hands_rank", sh + structured_fives(rng, "hrank 5") + made_hands(rng, 6, 3000, "hrank 6") + made_hands(rng, 7, 3000, "hrank 7"),
             "hand_rank() / hand_rank_validated() (value, name, class) of seeded and structured five-, six- and seven-card hands",
             categories=cats, pinned=True),
-    ]
+        fam("hrself_projection", [line("hrself %d" % (5 + j % 3), rand_hand(rng, 5 + j % 3)) for j in range(900)],
+            "the projection the sweeps use, on model and implementation", pinned=True),
+    ] + sweeps(rng, tier, lambda k: "hrself %d" % k, "1 1 1", "C06_cards + C06_cards_six_seven + C06_consistent",
+               "the reported rank record (plain and validated) is the conversion of the hand's value, is not Invalid and passes its own "
+               "consistency test", sizes=(5, 6, 7), name="hrself", quick_strides={5: (1, 4, 4), 6: (4, 16, 16), 7: (16, 64, 64)})
 
 
 def c07_families(rng, tier):
@@ -729,7 +751,12 @@ def c11_families(rng, tier):
         fam("sort_multisets", ms, "sizes 2..7: ALL multisets over a 7-word alphabet (blank, 1, two deuces, ace of spades, a flagged ace, "
             "0xFFFFFFFF), shuffled: sort() and sort_in_place()", pinned=True),
         fam("sort_seeded", rnd, "seeded hands of arbitrary u32 words / distinct cards / cards and blanks with repeats", categories=cats, pinned=True),
-    ]
+        fam("sortp_projection", [l.replace("sort ", "sortp ", 1) for l in rnd[:3000]], "the projection the sweeps use, on model and implementation "
+            "(non-increasing, same multiset, in-place form agrees, idempotent)", pinned=True),
+    ] + sweeps(rng, tier, lambda k: "sortp %d" % k, "1 1 1 1", "C11_sort + C11_sort_slots",
+               "sort() is non-increasing, a rearrangement of the input, equal to sort_in_place() and idempotent", sizes=(2, 3, 4, 5, 6, 7),
+               alphabet="deckblank", name="sortp", thorough_stride={7: 8},
+               quick_strides={2: (1, 1, 1), 3: (1, 1, 1), 4: (1, 1, 1), 5: (1, 4, 4), 6: (4, 16, 16), 7: (32, 128, 128)})
 
 
 # ---- C12 ---------------------------------------------------------------------------------------------------
@@ -920,7 +947,13 @@ def c15_families(rng, tier):
         fam("set_ops", ops, "fold_in, has, number_of_cards, is_single_card, is_valid on set pairs", pinned=True),
         fam("from_hands", hands, "from_two .. from_seven over {52 cards, blank} with repetition", pinned=True),
         fam("from_text", texts, "BinaryCard::from_index on token texts", pinned=True),
-    ]
+        fam("bcsetp_projection", [l.replace("bcfrom ", "bcsetp ", 1) for l in hands[:3000]], "the projection the sweeps use, on model and "
+            "implementation", pinned=True),
+    ] + sweeps(rng, tier, lambda k: "bcsetp %d" % k, "1 1 1 1 1", "C15_from_hand + C15_count + C15_has_card + C15_valid + C15_peel_all",
+               "the set built from the hand has exactly the distinct real cards among the slots (count, membership, no overflow bit, valid iff "
+               "non-empty) and peeling lists them in deck order, then blank", sizes=(2, 3, 4, 5, 6, 7), alphabet="deckblank", name="bcsetp",
+               thorough_stride={7: 8},
+               quick_strides={2: (1, 1, 1), 3: (1, 1, 1), 4: (1, 1, 1), 5: (1, 4, 4), 6: (4, 16, 16), 7: (32, 128, 128)})
 
 
 def c16_families(rng, tier):
